@@ -28,6 +28,13 @@ void c18_upgrade_reboot(void);
 int c18_rsa_sha256_verify(const struct rsa_public_key *key, struct sha256_ctx *hash, const mpz_t signature);
 #undef rsa_sha256_verify
 #define rsa_sha256_verify c18_rsa_sha256_verify
+/* which key the verification uses: modulus source and public exponent */
+void c18_key_modulus(mpz_t x, size_t length, const uint8_t *s);
+void c18_key_exponent(mpz_t x, unsigned long int e);
+#undef nettle_mpz_set_str_256_u
+#define nettle_mpz_set_str_256_u c18_key_modulus
+#undef mpz_set_ui
+#define mpz_set_ui c18_key_exponent
 
 #include <supla_update.c>
 
